@@ -373,6 +373,19 @@ def rule_r3(repo, run):
                       "of different overloads get the same name; the pass must append to the existing suffix"
                       % (gm.seg(node), first), gm.loc(node),
                       sample=dict(pass_=mname, first_pass=first, stmt=gm.seg(node)))
+    # class template instantiations: the type's own suffix only when there is exactly one template argument, else
+    # the running number of the instantiation
+    ic = gm.func("GenFunctions.instantiate_classes")
+    one = [n for n in ast.walk(ic) if isinstance(n, ast.If) and "len(targs.asts)" in gm.seg(n.test)]
+    okc = len(one) == 1 and gm.seg(one[0].test) == "len(targs.asts) == 1" and \
+        any(pat.has(st, "class_suffix = '_' + str(MV_I)") for st in one[0].orelse)
+    run.check(R, "generate.GenFunctions.instantiate_classes:class_suffix", okc,
+              "a class template with several parameters must be numbered (`_0`, `_1`): naming it after its first argument "
+              "alone gives <int,long> and <int,double> the same class, file and function names", gm.loc(ic))
+    tfn = gm.func("GenFunctions.template_function")
+    one = [n for n in ast.walk(tfn) if isinstance(n, ast.If) and "len(targs.asts)" in gm.seg(n.test)]
+    run.check(R, "generate.GenFunctions.template_function:template_suffix", len(one) == 1 and gm.seg(one[0].test) == "len(targs.asts) == 1",
+              "a function template with several parameters must be numbered, not named after its first argument", gm.loc(tfn))
     run.check(R, "generate.GenFunctions.define_function_suffix:first-pass", first == "has_default_args",
               "the first suffix-assigning pass is %s (expected has_default_args, the only one allowed to overwrite)" % first,
               gm.loc(f))
@@ -487,6 +500,17 @@ def rule_x(repo, run):
     from sa.report import import_rules
     import_rules(run, R, c05, repo, {"C05.R11"}, only=lambda c: c.startswith("wrapf."))
     import_rules(run, R, c18, repo, {"C18.R2"}, only=lambda c: "wrap_functions" in c)
+    # the Lua method table of a class starts empty for every class
+    wl = repo.module("wrapl")
+    wcl = wl.func("Wrapl.wrap_class")
+    used = set(x.attr for x in ast.walk(wcl) if isinstance(x, ast.Attribute) and pyflow.is_name(x.value, "self")
+               and x.attr.endswith("_class") and isinstance(x.ctx, ast.Load))
+    reset = set(t.attr for a in wcl.body if isinstance(a, ast.Assign) for t in a.targets
+                if isinstance(t, ast.Attribute) and pyflow.is_name(t.value, "self"))
+    for attr in sorted(used):
+        run.check(R, "wrapl.Wrapl.wrap_class:self.%s" % attr, attr in reset,
+                  "self.%s collects the entries of one class and is emitted per class, but wrap_class does not start it "
+                  "empty: a class's table also lists the methods of the classes before it" % attr, wl.loc(wcl))
     # name scopes (F_name_scope / C_name_scope) follow the namespace's own flatten options (C14.R8)
     from checks import c14
     import_rules(run, R, c14, repo, {"C14.R8"}, only=lambda c: c.startswith("ast."))
